@@ -207,6 +207,14 @@ def split_rows(rng):
     if high:
         prms['MSA'] = base + rng.choice([3000, 5000])
         prms['MSA_HIT_BUFFER'] = rng.choice([0, 1500])
+    elif rng.random() < 0.15:
+        # the whole (split) group between the MSA and MSA + buffer: processed and listed, never reported
+        prms['MSA'] = base - rng.choice([50, 400])
+        prms['MSA_HIT_BUFFER'] = rng.choice([3000, 5000])
+    if 'MSA' not in prms and rng.random() < 0.08:
+        # an aerodrome above the cloud: negative heights (accepted with a warning)
+        shift = base + gap + rng.choice([0, 150, 400])
+        rows = [(c, t, (h - shift if h == h else h), ty) for c, t, h, ty in rows]
     if rng.random() < 0.1:
         prms.setdefault('LAYERING_PRMS', {}).setdefault('gmm_kwargs', {})['mode'] = 'prob'
         prms['LAYERING_PRMS']['gmm_kwargs']['min_prob'] = rng.choice([1.0, 0.9, 0.5])
@@ -404,7 +412,7 @@ def _work(args):
         prms['SLICING_PRMS'] = dict(prms.get('SLICING_PRMS', {}), height_scale_mode=mode_, height_scale_kwargs=scenes.Replace(kw_))
         meta['slicing_height_scale_mode'] = mode_
     elif rr.random() < 0.12:
-        prms = scenes.numpy_typed(prms, rr)          # parameter values as NumPy scalars
+        prms = scenes.numpy_typed(prms, rr) if rr.random() < 0.6 else scenes.float_typed(prms, rr)   # NumPy scalars / floats
         meta['numpy_typed_prms'] = True
     meta['route'] = route
     # distorted mixture answers (within the shape the theorems assume) on a share of the scenes that engage the mixture
@@ -425,12 +433,24 @@ def _work(args):
             frame.index = index
         meta['frame_variant'] = how_
     try:
-        obs = scenes.run_scene(rows, prms, index=index, route=route, kernel_fuzz=fuzz, frame=frame)
+        plot_ = rr.random() < 0.02
+        meta['plot_excursion'] = plot_
+        obs = scenes.run_scene(rows, prms, index=index, route=route, kernel_fuzz=fuzz, frame=frame, plot_excursion=plot_)
     except Exception as e:
         return {'meta': meta, 'harness_error': f'{type(e).__name__}: {e}'}
-    out = {'meta': meta, 'exc': obs['exc'], 'stage': obs['stage'], 'exc_msg': obs.get('exc_msg'), 'eff_mismatch': obs.get('eff_mismatch'), 'impure_queries': obs.get('impure_queries'),
+    # cause signature of recorded finding F7: an MSA is set and every row is a hit of type >= 2 above MSA + buffer
+    sig = None
+    try:
+        msa_ = (prms or {}).get('MSA')
+        if msa_ is not None and rows:
+            lim_ = float(msa_) + float((prms or {}).get('MSA_HIT_BUFFER', 1500))
+            if all(t >= 2 and h == h and h > lim_ for _, _, h, t in rows):
+                sig = 'crop-empties-the-table'
+    except Exception:
+        sig = None
+    out = {'meta': meta, 'signature': sig, 'exc': obs['exc'], 'stage': obs['stage'], 'exc_msg': obs.get('exc_msg'), 'eff_mismatch': obs.get('eff_mismatch'), 'impure_queries': obs.get('impure_queries'),
            'stats': dict(scenes.scene_stats(obs), **{'index_' + ikind: 1, 'route_' + route: 1, 'numpy_typed_prms': int(bool(meta.get('numpy_typed_prms'))),
-                                                       'slicing_mode_' + str(meta.get('slicing_height_scale_mode')): 1,
+                                                       'slicing_mode_' + str(meta.get('slicing_height_scale_mode')): 1, 'plot_excursions': int(bool(meta.get('plot_excursion'))),
                                                        'mixture_answers_distorted': int(fuzz is not None and not fuzz.endswith('+cluster')),
                                                        'clustering_answers_distorted': int(fuzz is not None and fuzz.endswith('+cluster')),
                                                        'frame_variant_' + str(meta.get('frame_variant')): 1}), 'req': None, 'missing': obs['trace'].missing,
@@ -512,10 +532,12 @@ def run_pipeline(chk, prop, n_scenes, families=FAMILIES, crash_is_violation=Fals
             chk.count('scene_raised_' + res['exc'])
             if crash_is_violation and res['exc'] != 'AmpycloudError':
                 chk.spec_fail('C08.no-crash-on-valid-input', f"{res['exc']} at stage {res['stage']}: {res['exc_msg']}",
-                              replay, signature=None)
+                              replay, signature=res.get('signature'))
             elif crash_is_violation:
                 chk.spec_fail('C08.valid-input-refused', f"AmpycloudError at stage {res['stage']}: {res['exc_msg']}",
                               replay, signature=None)
+            elif res.get('signature') == 'crop-empties-the-table':
+                chk.count('scene_of_known_finding_F7_not_judged_here')
             else:
                 # the model computes a result for every generated scene (they are accepted inputs with in-domain
                 # parameters): an exception is a disagreement, whatever the property this check is about
